@@ -36,13 +36,14 @@ META = {
                   "the hand function on its whole (finite) input domain, (b) a hand model of Reconfigure.apply on an abstract world with "
                   "unbounded revision sets/tags, (c) a specification-level model of the upgrade driver; all tied to the code by running the "
                   "real factories/apply()/upgrade() on scratch control directories and comparing the complete state afterwards"),
-    "level_text": ("refinement style (P-spec): every planned action list reaches the requested layout; tip, revisions reachable from the tip, "
-                   "tree content and pending changes are preserved by every (factory, world) pair -- completed or refused midway -- proved for "
-                   "all worlds by finite case analysis over the layout with symbolic revision sets and tags; tags, pending-merge revisions, "
-                   "'no revision is lost' and 'a refusal changes nothing' are REFUTED in the faithful model (replayed on the real code) and proved "
-                   "under executable guards; the upgrade driver terminates with the target formats and an unchanged payload exactly when the "
-                   "target is not a colocated-branch format applied to something else than a pure metadir switch and the tree format is not "
-                   "lowered (both divergences replayed)."),
+    "level_text": ("refinement style (P-spec): every planned action list reaches the requested layout; tip, tree content and pending changes, "
+                   "and every revision stored anywhere in the world are preserved by every completed (factory, world) pair -- proved for all "
+                   "worlds by finite case analysis over the layout with symbolic revision sets and tags; revisions reachable from the tip and "
+                   "the pending merges of a kept tree stay in the branch's repository (proved when the location ends with a branch of its own); "
+                   "refusals by a factory, by _check or by the early bind lookup change nothing; tags are REFUTED in the faithful model "
+                   "(to_lightweight_checkout, replayed on the real code) and proved under an executable guard; the upgrade driver carries the "
+                   "payload through, ends in the target format and terminates on every combination of known formats. Six defects found by "
+                   "this check were repaired in /repo (ea08d31, 300cbf1, 00bc7de, e09d9b1, 69d43de, bcc4656); their witnesses are regression inputs."),
     "level_note": ("Trusted: Coq kernel, vm_compute; py2coq class mode + Lib/PyImp.v for the planning kernel; the hand model of apply()/upgrade "
                    "(validated by the correspondence run on every run); Repository.fetch, Tags.merge_to, find_repository, create_*/destroy_* "
                    "as modelled (environment, compared through the observed end state); testaments are compared by the oracle only."),
@@ -343,11 +344,6 @@ def _reconf_case(rng, shape, target, nb="auto", force=None, gi=None):
             nb = None
     if force is None:
         force = rng.random() < 0.15
-    if (target == "use-shared" and w["repo"] is not None and w["repo"]["shared"] and w["branch"] == {"ref": 0}
-            and w["others"][0]["own"] is None):
-        # finding C52-repository-destroyed-without-fetch: afterwards the referenced branch has no usable
-        # repository, so a working tree could not even be opened for observation
-        w["tree"] = None
     return {"kind": "reconf", "world": w, "target": target, "nb": nb, "force": bool(force)}
 
 
@@ -358,14 +354,14 @@ def _w(gi=0, repo=None, outer=None, branch=None, tree=None, others=(None, None, 
 def corpus():
     g0 = list(range(len(DAGS[0])))
     out = []
-    # W1 (finding): to_standalone of a tree with a pending merge inside a shared repository
+    # W1 (regression, fixed 300cbf1): to_standalone of a tree with a pending merge inside a shared repository
     out.append({"kind": "reconf", "target": "standalone", "nb": None, "force": False, "world": _w(
         outer={"trees": True, "revs": g0},
         branch={"local": {"tip": 2, "tags": {}, "bloc": None, "push": None, "parent": None}},
         tree={"merges": [3], "changes": []})})
-    # W2 (finding): lightweight checkout at the root of a shared repository whose branch lives inside it -> use-shared
+    # W2 (regression, fixed ea08d31; now refused with NotBranchError): lightweight checkout at the root of a shared repository whose branch lives inside it -> use-shared
     out.append({"kind": "reconf", "target": "use-shared", "nb": None, "force": False, "world": _w(
-        repo={"shared": True, "trees": True, "revs": g0}, branch={"ref": 0}, tree=None,
+        repo={"shared": True, "trees": True, "revs": g0}, branch={"ref": 0}, tree={"merges": [], "changes": [1]},
         others=({"tip": 5, "tags": {"0": 1}, "own": None}, None, None))})
     # W3 (finding): to_lightweight_checkout with a tag clash
     out.append({"kind": "reconf", "target": "lightweight", "nb": 2, "force": False, "world": _w(
@@ -373,7 +369,7 @@ def corpus():
         branch={"local": {"tip": 4, "tags": {"0": 2, "1": 4}, "bloc": None, "push": None, "parent": None}},
         tree={"merges": [], "changes": [1]},
         others=(None, None, {"tip": 4, "tags": {"0": 1}, "own": _closure(DAGS[0], [4])}))})
-    # W4 (finding): to_checkout without any bind location: the tree is created, then NoBindLocation
+    # W4 (regression, fixed 00bc7de): to_checkout without any bind location: NoBindLocation before anything is changed
     out.append({"kind": "reconf", "target": "checkout", "nb": None, "force": False, "world": _w(
         repo={"shared": False, "trees": True, "revs": _closure(DAGS[0], [4])},
         branch={"local": {"tip": 4, "tags": {"2": 0}, "bloc": None, "push": None, "parent": None}},
@@ -384,7 +380,7 @@ def corpus():
         branch={"local": {"tip": 5, "tags": {"1": 3}, "bloc": [True, 2], "push": None, "parent": None}},
         tree={"merges": [], "changes": [1, 2]},
         others=(None, None, {"tip": 5, "tags": {}, "own": g0}))})
-    # W6: lightweight checkout -> tree with a pending merge known only to the referenced repository (finding class W1)
+    # W6 (regression, fixed 300cbf1): lightweight checkout -> tree with a pending merge known only to the referenced repository
     out.append({"kind": "reconf", "target": "tree", "nb": None, "force": False, "world": _w(
         branch={"ref": 2}, tree={"merges": [3], "changes": []},
         others=(None, None, {"tip": 2, "tags": {"0": 0}, "own": g0}))})
@@ -411,7 +407,7 @@ def corpus():
     out.append({"kind": "reconf", "target": "standalone", "nb": None, "force": False, "world": _w(
         outer={"trees": False, "revs": [0, 1, 2, 3]}, branch={"ref": 0}, tree={"merges": [], "changes": [1]},
         others=({"tip": 3, "tags": {"1": 0}, "own": None}, None, None))})
-    # upgrade witnesses (findings): colo target on an old directory; lowering the tree format
+    # upgrade regressions (fixed e09d9b1, 69d43de): colo target on an old directory; lowering the tree format
     out.append({"kind": "upgrade", "src": "1.14-rich-root", "dst": "development-colo", "layout": "tree", "clean_up": False,
                 "nrev": 2, "tags": {}, "changes": [], "merge": False, "locs": [None, None, None]})
     out.append({"kind": "upgrade", "src": "1.14", "dst": "1.9", "layout": "tree", "clean_up": False,
@@ -442,7 +438,7 @@ REPO_CLASS = {1: "RepositoryFormatKnit1", 2: "RepositoryFormatKnitPack1", 3: "Re
               7: "RepositoryFormatKnitPack6", 8: "RepositoryFormatKnitPack6RichRoot", 9: "RepositoryFormat2a"}
 BRANCH_CLASS = {5: "BzrBranchFormat5", 6: "BzrBranchFormat6", 7: "BzrBranchFormat7", 8: "BzrBranchFormat8"}
 TREE_CLASS = {3: "WorkingTreeFormat3", 4: "WorkingTreeFormat4", 5: "WorkingTreeFormat5", 6: "WorkingTreeFormat6"}
-HANG_SECONDS = 6       # for inputs the model predicts to diverge; 90 s for every other input
+HANG_SECONDS = 90
 
 
 def _check_format_classes():
@@ -465,36 +461,10 @@ def _check_format_classes():
                 raise AssertionError("repository format classes related: %s %s" % (a, b))
 
 
-def _dir_outcome(s, d, has_repo, has_branch, has_tree):
-    """Python mirror of Model/Upgrade52.convert for ONE directory: 'same' | 'bad' | 'hang' | 'ok'."""
-    need = (s[0] != d[0]) or (has_repo and s[1] != d[1]) or (has_branch and s[4] != d[4]) or (has_tree and s[5] != d[5])
-    if not need:
-        return "same"
-    if has_repo and ((s[2] and not d[2]) or (s[3] and not d[3])):
-        return "bad"
-    rest = (has_repo and s[1] != d[1]) or (has_branch and s[4] != d[4]) or (has_tree and s[5] != d[5])
-    if d[0]:
-        return "hang" if rest else "ok"
-    if has_branch and d[4] < s[4]:
-        return "bad"
-    if has_tree and ((s[5] >= 4 and d[5] == 3) or (s[5] in (5, 6) and d[5] == 4)):
-        return "hang"
-    return "ok"
-
-
 def _hangs(src, dst, layout):
-    """Cases the faithful model predicts to diverge (kept out of the generated cases: each costs HANG_SECONDS)."""
-    s, d = FORMATS[src], FORMATS[dst]
-    if layout == "tree":
-        return _dir_outcome(s, d, True, True, True) == "hang"
-    if layout == "branch":
-        return _dir_outcome(s, d, True, True, False) == "hang"
-    main = _dir_outcome(s, d, True, False, False)
-    if main == "hang":
-        return True
-    if main == "bad":
-        return False
-    return "hang" in (_dir_outcome(s, d, False, True, True), _dir_outcome(s, d, False, True, False))
+    """Inputs the model predicts to diverge: none since the repairs e09d9b1 (colo target) and 69d43de (lowered tree
+    format); every call runs under a 90 s alarm and a real divergence is reported by the oracle."""
+    return False
 
 
 def _upgrade_cases(rng, tier):
@@ -1086,7 +1056,7 @@ def impl_upgrade(inp):
         before = [_observe_cdir(p, ulocs) for p in [main] + deps]
         hang = False
         old = signal.signal(signal.SIGALRM, _alarm)
-        signal.alarm(HANG_SECONDS if _hangs(inp["src"], inp["dst"], inp["layout"]) else 90)
+        signal.alarm(HANG_SECONDS)
         try:
             try:
                 excs = upgrade.upgrade(_url(main), _F(inp["dst"]), clean_up=inp["clean_up"])
@@ -1346,49 +1316,18 @@ def _tags_clash(inp):
 
 
 def finding_matches(fid, inp, obs, why):
+    """Still-known findings only (fixed in /repo, no longer excused: C52-repository-destroyed-without-fetch ea08d31,
+    C52-pending-merge-not-fetched 300cbf1, C52-late-bind-refusal 00bc7de, C52-upgrade-colo-hang e09d9b1,
+    C52-upgrade-tree-downgrade-hang 69d43de, C52-upgrade-5to6-empty-push-location bcc4656)."""
     why = why or ""
-    if inp["kind"] == "reconf":
-        w = inp["world"]
-        if fid == "C52-lightweight-tag-clash":
-            return why.startswith("tags-lost:") and inp["target"] == "lightweight" and _tags_clash(inp)
-        if fid == "C52-pending-merge-not-fetched":
-            return (why.startswith("pending-merge-lost:") and w["tree"] is not None and bool(w["tree"]["merges"])
-                    and inp["target"] in ("standalone", "branch", "tree", "checkout", "lightweight"))
-        if fid == "C52-repository-destroyed-without-fetch":
-            return (why.startswith("revision-lost:") and inp["target"] in ("use-shared", "lightweight")
-                    and w["repo"] is not None and not (w["branch"] and "local" in w["branch"]))
-        if fid == "C52-standalone-shadows-outer-repository":
-            return (why.startswith("branch-lost:") and inp["target"] == "standalone" and w["repo"] is None
-                    and w["outer"] is not None and w["branch"] == {"ref": 0} and w["others"][0]["own"] is None)
-        if fid == "C52-late-bind-refusal":
-            return (why.startswith("refusal-changed-state:") and inp["target"] == "checkout"
-                    and ("NoBindLocation" in why or "NotBranchError" in why))
+    if inp["kind"] != "reconf":
         return False
-    if fid == "C52-upgrade-5to6-empty-push-location":
-        # exactly: the only branch-payload difference in any directory is push None -> "" on a converted format-5 branch
-        if not (why.startswith("branch-payload-changed") and FORMATS[inp["src"]][4] == 5 and FORMATS[inp["dst"]][4] > 5):
-            return False
-        if isinstance(obs, Err) or obs.get("after") is None:
-            return False
-        seen = False
-        for bm, am in zip(obs["before_m"], [obs["model"][1]] + list(obs["model"][2])):
-            if bm[2] is None:
-                continue
-            if am[2] is None:
-                return False
-            b, a = bm[2][1], am[2][1]
-            if b == a:
-                continue
-            if bm[2][0] == 5 and b[:4] == a[:4] and b[4] is None and a[4] == 0:
-                seen = True
-            else:
-                return False
-        return seen
-    if fid == "C52-upgrade-colo-hang":
-        return why.startswith("upgrade-hang:") and FORMATS[inp["dst"]][0]
-    if fid == "C52-upgrade-tree-downgrade-hang":
-        return (why.startswith("upgrade-hang:") and not FORMATS[inp["dst"]][0]
-                and FORMATS[inp["dst"]][5] < FORMATS[inp["src"]][5])
+    w = inp["world"]
+    if fid == "C52-lightweight-tag-clash":
+        return why.startswith("tags-lost:") and inp["target"] == "lightweight" and _tags_clash(inp)
+    if fid == "C52-standalone-shadows-outer-repository":
+        return (why.startswith("branch-lost:") and inp["target"] == "standalone" and w["repo"] is None
+                and w["outer"] is not None and w["branch"] == {"ref": 0} and w["others"][0]["own"] is None)
     return False
 
 
